@@ -5,19 +5,53 @@
 set -u
 cd /verif/mc || exit 2
 export CARGO_NET_OFFLINE=true
-LOG=/verif/.target/build-$$.log
 mkdir -p /verif/.target
-if ! cargo build --release --offline >"$LOG" 2>&1; then
-    echo "MACHINERY-ERROR: harness build failed (is /repo's working tree compiling with --features verif?)" >&2
-    grep -E "^error" -A12 "$LOG" | head -60 >&2
-    rm -f "$LOG"
-    exit 2
-fi
-rm -f "$LOG"
-MC=/verif/.target/release/mc
+
+# build <target-dir-suffix> <feature>: (re)builds one flavour of the harness against /repo's working tree
+build() {
+    local log=/verif/.target/build$1-$$.log
+    if ! CARGO_TARGET_DIR=/verif/.target$1 cargo build --release --offline --no-default-features --features "$2" >"$log" 2>&1; then
+        echo "MACHINERY-ERROR: harness build ($2) failed (does /repo's working tree compile with --features verif?)" >&2
+        grep -E "^error" -A12 "$log" | head -60 >&2
+        rm -f "$log"
+        return 2
+    fi
+    rm -f "$log"
+}
+
 case "${1:-}" in
-    replay) exec "$MC" replay "$2" ;;
-    selftest) exec "$MC" selftest ;;
     "") echo "usage: $0 <ID> <quick|thorough> | replay <file>" >&2; exit 2 ;;
-    *) exec "$MC" check "$1" "${2:-${VERIF_TIER:-quick}}" ;;
+    replay)
+        flavour=$(python3 -c "import json,sys; print(json.load(open(sys.argv[1])).get('flavour','tokio'))" "$2" 2>/dev/null || echo tokio)
+        case "$flavour" in
+            async-std) build -async rt-async || exit 2; exec /verif/.target-async/release/mc replay "$2" ;;
+            smol) build -smol rt-smol || exit 2; exec /verif/.target-smol/release/mc replay "$2" ;;
+            *) build "" rt-tokio || exit 2; exec /verif/.target/release/mc replay "$2" ;;
+        esac ;;
+    selftest) build "" rt-tokio || exit 2; exec /verif/.target/release/mc selftest ;;
+    C19) shift; exec /verif/typecat/check.sh "${1:-${VERIF_TIER:-quick}}" ;;
+    C18)
+        tier="${2:-${VERIF_TIER:-quick}}"
+        build "" rt-tokio || exit 2
+        build -async rt-async || exit 2
+        build -smol rt-smol || exit 2
+        rm -f /verif/.target/c18-*.json
+        rc=0
+        for f in ":tokio" "-async:async-std" "-smol:smol"; do
+            dir=${f%%:*}; rt=${f##*:}
+            # the shim of each runtime is first bound to the real runtime
+            VERIF_CONFORMANCE_FILE=/verif/.target/c18-conformance.json /verif/.target$dir/release/mc conformance >/verif/.target/c18-$rt-conformance.log 2>&1 || { echo "MACHINERY-ERROR: shim conformance failed on $rt" >&2; cat /verif/.target/c18-$rt-conformance.log >&2; exit 2; }
+            VERIF_EXPORT_FILE=/verif/.target/c18-$rt-export.json VERIF_EVIDENCE_FILE=/verif/.target/c18-$rt-evidence.json \
+                /verif/.target$dir/release/mc check C18 "$tier"
+            r=$?
+            [ $r -gt $rc ] && rc=$r
+        done
+        [ $rc -ge 2 ] && exit 2
+        /verif/.target/release/mc c18-compare "$tier"
+        r=$?
+        [ $r -gt $rc ] && rc=$r
+        exit $rc ;;
+    *)
+        build "" rt-tokio || exit 2
+        exec /verif/.target/release/mc check "$1" "${2:-${VERIF_TIER:-quick}}" ;;
 esac
